@@ -63,7 +63,23 @@ Calibration.calibrate_input = wrap_in
 Calibration.calibrate_output = wrap_out
 
 
+class Shared(torch.nn.Module):
+    """a projection applied to a quantized activation and, in the same forward, to a float tensor"""
+
+    def __init__(self, n):
+        super().__init__()
+        self.fc = torch.nn.Linear(n, n)
+        self.proj = torch.nn.Linear(n, n)
+
+    def forward(self, x):
+        a = self.proj(self.fc(x))
+        b = self.proj(x * 0.5)
+        return a, b
+
+
 def build(case, dtype):
+    if case["layers"] == ["shared"]:
+        return Shared(case["width"]).to(dtype)
     layers = []
     n = case["width"]
     for k in case["layers"]:
